@@ -462,9 +462,11 @@ def run_property(pid, tier, seed, scale=1.0):
         for fp_ in fprofs:
             scs += fault_variants(fp_, max(1, n // len(fprofs)), seed, per_q if tier == 'quick' else per_t, pid,
                                   P.get('fault_calls'))
-        for prof, xq, xt, xpq, xpt in P.get('fault_extra', []):
+        for fx in P.get('fault_extra', []):
+            prof, xq, xt, xpq, xpt = fx[:5]
+            fcalls = fx[5] if len(fx) > 5 else P.get('fault_calls')
             scs += fault_variants(prof, max(1, int((xq if tier == 'quick' else xt) * scale)), seed,
-                                  xpq if tier == 'quick' else xpt, pid, P.get('fault_calls'))
+                                  xpq if tier == 'quick' else xpt, pid + '-' + prof if len(fx) > 5 else pid, fcalls)
         assume.append('fault space = the library\'s own mkdir/makedirs/rename/cache-open/cache-write calls issued '
                       'before commit or rollback starts (C14 statement); one fault per execution')
     if P.get('thread_units'):
